@@ -149,7 +149,7 @@ fn judge_transition(t: &Transition, table: Option<&OrderTable>) -> Vec<Violation
 
 pub fn run(ctx: &Ctx) {
     ctx.set("exhaustive", json!(true));
-    let searches: Vec<(usize, usize)> = ctx.tier.pick(vec![(2, 4), (3, 1)], vec![(2, 6), (3, 2)]);
+    let searches: Vec<(usize, usize)> = ctx.tier.pick(vec![(2, 4), (3, 1)], vec![(2, 8), (3, 2)]);
     let mut malformed_seen = 0u64;
     for (aw, depth) in searches {
         let alphabet = materialise(history_cfg(aw));
